@@ -58,7 +58,7 @@ UnmergeNodes(C, i) ==
     [x \in (DOMAIN C.n) \ gone |-> [C.n[x] EXCEPT !.adms = @ \ {i}, !.deleg = [t \in DOMAIN @ |-> Without(@[t], {i})]]]
 Unmerge(S, i) ==
     LET C == S.cbm
-        rest == (UNION {C.n[x].adms : x \in DOMAIN C.n}) \ {i}
+        rest == ((UNION {C.n[x].adms : x \in DOMAIN C.n}) \ {i}) \cap DOMAIN S.adm     \* (total also on observed states with foreign ids)
         \* a connection stays iff a model that remains merged holds it
     IN  Ok([S EXCEPT !.cbm = [n |-> UnmergeNodes(C, i),
                               e |-> {ed \in C.e : \E j \in rest : ed \in S.adm[j].e}]])
